@@ -22,6 +22,7 @@ func init() {
 			"(R6) only the write-control functions write the reported Active/Paused and the per-channel pause flag; (R7) a START's file pattern comes from a directory that was found not to exist and was then created. " +
 			"Does not decide: run-directory numbering arithmetic, end-to-end behaviour over request histories with I/O failures inside WritingState.Start/Stop.",
 		RuleDocs: []string{
+			"C06.R9 transitive control dependence of each format's install / flush step: only on conditions about that format (aborting exits are not a way of skipping one format)",
 			"C06.R1 sibling agreement of installers: store of false to the pause flag on every path",
 			"C06.R2a pause setter over all processors is followed by the reported store of the same constant on every path to a return",
 			"C06.R2b reported Paused store is dominated by the all-processor pause loop with the same constant",
